@@ -34,7 +34,18 @@ def _call(c, est, m, Xb):
         return False, r
     if hasattr(r, "toarray"):
         r = r.toarray()
+    if hasattr(r, "columns") and hasattr(r, "values"):
+        # a frame: its values, row by row
+        r = r.values
     return True, numpy.asarray(r)
+
+
+def _take(Xb, idx):
+    """Rows idx of a batch (array or frame; a frame keeps its index labels, so
+    duplicated rows have duplicated labels)."""
+    if hasattr(Xb, "iloc"):
+        return Xb.iloc[list(idx)]
+    return numpy.ascontiguousarray(Xb[idx])
 
 
 def run(c, index, tier):
@@ -67,10 +78,15 @@ def run(c, index, tier):
     # batch: probe rows (some training rows, some new) + far-away rows
     Xb = data.Xp
     rs = numpy.random.RandomState(ch.subseed("w", "batch"))
-    far = rs.randn(ch.integer("w", 0, 4, "far"), Xb.shape[1]) * 6
-    if data.kind == "nonneg":
-        far = numpy.abs(far)
-    Xb = numpy.ascontiguousarray(numpy.vstack([Xb, far.astype(Xb.dtype)]))  # the dtype the model was fitted on
+    is_frame = hasattr(Xb, "iloc")
+    if is_frame:
+        far = None
+        Xb = Xb.copy()
+    else:
+        far = rs.randn(ch.integer("w", 0, 4, "far"), Xb.shape[1]) * 6
+        if data.kind == "nonneg":
+            far = numpy.abs(far)
+        Xb = numpy.ascontiguousarray(numpy.vstack([Xb, far.astype(Xb.dtype)]))  # the dtype the model was fitted on
     m_rows = Xb.shape[0]
     c.nontrivial = True
 
@@ -89,7 +105,7 @@ def run(c, index, tier):
         ref[m] = r
     if not ref:
         return
-    fragile = spec.fragile_rows(est, Xb)
+    fragile = numpy.zeros(m_rows, dtype=bool) if is_frame else spec.fragile_rows(est, Xb)
     if fragile.any():
         c.probe("rows_at_floating_point_tie", int(fragile.sum()))
     c.log.ev("result", "ref", [(m, C.ahash(v)) for m, v in sorted(ref.items())])
@@ -110,7 +126,8 @@ def run(c, index, tier):
             kinds.append("n_jobs")
         if unseen_idx.size:
             kinds.append("unseen-only")
-        kinds.append("buffer-reuse")
+        if not is_frame:
+            kinds.append("buffer-reuse")
         op = ch.choice("w", kinds, "op")
         if len(c.scenario["ops"]) < 20:
             c.scenario["ops"].append(op)
@@ -198,7 +215,7 @@ def run(c, index, tier):
         m = ch.choice("w", sorted(ref), "method")
         env()
         before = c.log.n_switch
-        ok, out = _call(c, est, m, numpy.ascontiguousarray(Xb[idx]))
+        ok, out = _call(c, est, m, _take(Xb, idx))
         if c.log.n_switch > before + 2:
             c.probe("schedule_switch_inside_predict")
         if not ok:
@@ -218,7 +235,7 @@ def run(c, index, tier):
                 out, want = out[solid], want[solid]
             idx = idx[solid]
         rt, at = tol.get(m, R.TOL)
-        if Xb.dtype == numpy.float32 and (rt, at) != R.EXACT:
+        if not is_frame and Xb.dtype == numpy.float32 and (rt, at) != R.EXACT:
             rt, at = max(rt, 1e-4), max(at, 1e-5)  # single-precision arithmetic
         if out.shape != want.shape or not U.arrays_equal(out, want, rt, at):
             bad = None
